@@ -45,6 +45,7 @@ def reuse_stage(tier_, key):
                 cfgs.append(corpus.cfg(P, 10, 40, muts=corpus.MUTS, rate=1.0, unsafe=True))
         spec = {"cfgs": cfgs, "seed": rng.getrandbits(40), "x": [rng.randrange(256) for _ in range(rng.randrange(1, 200))],
                 "y": [rng.randrange(256) for _ in range(rng.randrange(200, 900))], "maxlen": 4 if tier_ == "quick" else 5}
+        spec["x"][0] |= 1; spec["y"][0] &= 0xFE        # first draw (frame coin for protocols 4/5) differs between x and y
         sf = os.path.join(d, "reuse_spec.json"); json.dump(spec, open(sf, "w"))
         of = os.path.join(d, "reuse.ndjson")
         run([PFV, "reuse", sf, of], timeout=3600)
